@@ -64,7 +64,7 @@ def _bound_method(c, func, receiver):
     return o
 
 
-@unit("_resolve-method", ["C13", "C15"], [S + ":_resolve", S + ":_dig", S + ":_eval", S + ":Element.clone", S + ":Call.clone", S + ":InternedMC.__call__"],
+@unit("_resolve-method", ["C13", "C15", "C18"], [S + ":_resolve", S + ":_dig", S + ":_eval", S + ":Element.clone", S + ":Call.clone", S + ":InternedMC.__call__"],
       assumed=["inspect.getfullargspec(f).args[0] is the name of the first parameter", "a bound method forwards unknown attribute lookups to __func__ (CPython)"])
 def u_resolve_method(c):
     """obj.meth > v: the compiled selector's function is the function underlying the method (through decorators that record
@@ -76,8 +76,8 @@ def u_resolve_method(c):
     decorated = bool(c.choose(2, "decorated"))
     inner = _fn_obj(c, "meth_inner")
     func = _fn_obj(c, "meth", wrapped=inner) if decorated else inner
-    selfname = ["self", "this"][c.choose(2, "selfname")]
-    spec = SymObj("argspec", Val.ref(z3.IntVal(-9)), attrs={"args": [selfname, "v"]}, closed=True)
+    selfname = ["self", "this", None][c.choose(3, "selfname")]  # None: def m(*args) -- the receiver has no named parameter
+    spec = SymObj("argspec", Val.ref(z3.IntVal(-9)), attrs={"args": [selfname, "v"] if selfname else []}, closed=True)
     inspect_ns = SymObj("inspect", Val.ref(z3.IntVal(-10)), attrs={"getfullargspec": SummaryFn("getfullargspec", lambda it_, a, k: spec)})
     it.module_env(S).vars["inspect"] = inspect_ns
     through_object = bool(c.choose(2, "through-object"))
@@ -88,6 +88,11 @@ def u_resolve_method(c):
     sel = it.call(Call, [], dict(element=it.call(Element, [], dict(name=target)), captures=(cap,)))
     cnt = iter(range(100))
     st, r = run(it, it.get_global(S, "_resolve"), [sel, {}, iter(range(100))])
+    if selfname is None and through_object:
+        # the receiver of such a method cannot be captured: the selector is refused with a selector error, not an IndexError (C18)
+        c.prove("method-without-a-named-receiver/refused-with-a-selector-error", st == "raise" and exc_name(r) == "SelectorError", note=f"{st} {exc_name(r) if st == 'raise' else r!r}",
+                only=["C13", "C18"])
+        return
     if st != "ok":
         c.prove("select-does-not-raise-for-any-receiver", False, note=f"raised {exc_name(r)}: {r!r}")
         return
@@ -181,7 +186,8 @@ def u_resolve_reference(c):
     it = Interp(c)
     refs = [("/mod/f", "mod", ["f"]), ("//f", "__main__", ["f"]), ("/pkg.mod/A/m", "pkg.mod", ["A", "m"]), ("/mod/a.b", None, None)]
     ref, module, hier = refs[c.choose(len(refs), "reference")]
-    found = bool(c.choose(2, "found"))
+    fkind = c.choose(3, "found")  # 0 found, 1 no such function in the module, 2 the module has no source file (a builtin module: /sys/exit)
+    found = fkind == 0
     code = SymObj("code", Val.ref(z3.IntVal(c.new_id())))
     target = _fn_obj(c, "target")
     n_private = c.choose(3, "private-copies")
@@ -194,7 +200,7 @@ def u_resolve_reference(c):
     def find_code(it_, a, kw):
         calls.append((list(a), dict(kw)))
         if not found:
-            raise PyRaise(KeyError(tuple(a)))
+            raise PyRaise(KeyError(tuple(a)) if fkind == 1 else AttributeError("module 'sys' has no attribute '__file__'"))
         return code
 
     codefind = SymObj("codefind", Val.ref(z3.IntVal(-11)), attrs={
